@@ -30,52 +30,24 @@ Proof. simpl. intros H. injection H as <-. reflexivity. Qed.
 
 (** ---- (b) ---- *)
 
-Inductive msg_class := HeaderBlankLine.
-
-Definition classify_msg (raw : str) : option msg_class :=
-  match index raw sep4 with Some _ => Some HeaderBlankLine | None => None end.
-
-Lemma header_text_no_separator raw :
-  classify_msg raw = None -> header_of raw ++ text_of raw = raw.
+Lemma header_text raw : header_of raw ++ text_of raw = raw.
 Proof.
-  unfold classify_msg, header_of, text_of.
-  destruct (index raw sep4); [discriminate|]. intros _. apply app_nil_r.
+  unfold header_of, text_of.
+  destruct (index raw sep4) as [i|]; [apply firstn_skipn | apply app_nil_r].
 Qed.
 
-(** the exact form of the defect: the two octets of the blank line are missing *)
-Lemma header_text_law raw :
-  classify_msg raw = Some HeaderBlankLine -> header_of raw ++ crlf ++ text_of raw = raw.
+Lemma header_text_ok_all raw : header_text_ok raw = true.
+Proof. unfold header_text_ok. apply str_eqb_eq, header_text. Qed.
+
+(** the header section is everything before the first blank line, and the blank line *)
+Lemma header_ends_with_blank_line raw i :
+  index raw sep4 = Some i -> header_of raw = firstn i raw ++ sep4.
 Proof.
-  unfold classify_msg, header_of, text_of.
-  destruct (index raw sep4) as [i|] eqn:E; [|discriminate]. intros _.
+  intros E. unfold header_of. rewrite E.
   destruct (index_some_split _ _ _ E) as (a & b & -> & L). subst i.
-  unfold sep4.
-  replace (length a + 2) with (length (a ++ crlf)) by (rewrite app_length; reflexivity).
-  replace (length a + 4) with (length (a ++ crlf ++ crlf)) by (rewrite !app_length; simpl; lia).
-  replace (a ++ (crlf ++ crlf) ++ b) with ((a ++ crlf) ++ (crlf ++ b)) at 1
-    by (rewrite <- !app_assoc; reflexivity).
-  rewrite firstn_app, Nat.sub_diag, firstn_all, app_nil_r.
-  replace (a ++ (crlf ++ crlf) ++ b) with ((a ++ crlf ++ crlf) ++ b) at 1
-    by (rewrite <- !app_assoc; reflexivity).
-  rewrite skipn_app, Nat.sub_diag, skipn_all. simpl skipn.
-  rewrite <- !app_assoc. reflexivity.
-Qed.
-
-Lemma header_text_fails raw :
-  classify_msg raw = Some HeaderBlankLine -> header_of raw ++ text_of raw <> raw.
-Proof.
-  intros C E. pose proof (header_text_law raw C) as L.
-  apply (f_equal (@length ascii)) in E. apply (f_equal (@length ascii)) in L.
-  rewrite !app_length in *. simpl in L. lia.
-Qed.
-
-Lemma header_text_all raw :
-  header_text_ok raw = true <-> classify_msg raw = None.
-Proof.
-  unfold header_text_ok. rewrite str_eqb_eq. split.
-  - intros E. destruct (classify_msg raw) as [[]|] eqn:C; [|reflexivity].
-    exfalso. exact (header_text_fails raw C E).
-  - apply header_text_no_separator.
+  replace (length a + 4) with (length (a ++ sep4)) by (rewrite app_length; reflexivity).
+  rewrite app_assoc. rewrite firstn_app, Nat.sub_diag, firstn_all. cbn [firstn]. rewrite app_nil_r.
+  rewrite <- app_assoc. rewrite firstn_app, Nat.sub_diag, firstn_all. cbn [firstn]. now rewrite app_nil_r.
 Qed.
 
 (** ---- (e) ---- *)
@@ -83,45 +55,33 @@ Qed.
 Lemma partial_cut_slice p o n : partial_cut p o n = slice_spec p o n.
 Proof.
   unfold partial_cut, slice_spec.
-  destruct (o <? length p) eqn:Ho.
-  - apply Nat.ltb_lt in Ho.
-    destruct (length p <? o + n) eqn:He.
-    + apply Nat.ltb_lt in He.
-      rewrite !firstn_all2; [reflexivity | rewrite skipn_length; lia | rewrite skipn_length; lia].
-    + replace (o + n - o) with n by lia. reflexivity.
-  - apply Nat.ltb_ge in Ho. rewrite skipn_all2 by lia. now rewrite firstn_nil.
+  destruct (length p <=? o) eqn:Ho.
+  - apply Nat.leb_le in Ho. rewrite skipn_all2 by lia. now rewrite firstn_nil.
+  - apply Nat.leb_gt in Ho.
+    destruct (length p - o <? n) eqn:He; [|reflexivity].
+    apply Nat.ltb_lt in He.
+    rewrite !firstn_all2; [reflexivity | rewrite skipn_length; lia | rewrite skipn_length; lia].
 Qed.
-
-Inductive item_class := PartialIgnored.
-
-Definition classify_item (s : section) (part : option (nat * nat)) : option item_class :=
-  match s, part with
-  | SecAll, Some _ => Some PartialIgnored
-  | SecHeader, Some _ => Some PartialIgnored
-  | _, _ => None
-  end.
 
 Definition expected (x : str) (part : option (nat * nat)) : str :=
   match part with None => x | Some (o, n) => slice_spec x o n end.
 
+Lemma cut_expected x part : cut x part = expected x part.
+Proof. destruct part as [[o n]|]; [apply partial_cut_slice | reflexivity]. Qed.
+
 Lemma partial_slice raw rows s part x :
-  classify_item s part = None ->
   fetch_item raw rows s None = Some x ->
   fetch_item raw rows s part = Some (expected x part).
 Proof.
-  destruct part as [[o n]|]; [|intros _ H; exact H].
-  destruct s as [| | |p]; simpl; try discriminate; intros _.
-  - intros H. injection H as <-. now rewrite partial_cut_slice.
+  destruct s as [| | |p]; cbn [fetch_item cut].
+  - intros H. injection H as <-. now rewrite cut_expected.
+  - intros H. injection H as <-. now rewrite cut_expected.
+  - intros H. injection H as <-. now rewrite cut_expected.
   - destruct (section_of rows p) as [|c|r]; intros H; try discriminate.
-    + injection H as <-. unfold slice_spec. rewrite skipn_nil, firstn_nil. reflexivity.
-    + injection H as <-. now rewrite partial_cut_slice.
+    + injection H as <-. destruct part as [[o n]|]; [|reflexivity].
+      cbn [expected]. unfold slice_spec. now rewrite skipn_nil, firstn_nil.
+    + injection H as <-. now rewrite cut_expected.
 Qed.
-
-(** the exact form of the defect: the partial is not looked at *)
-Lemma partial_ignored_law raw rows s part :
-  classify_item s part = Some PartialIgnored ->
-  fetch_item raw rows s part = fetch_item raw rows s None.
-Proof. destruct s, part as [[o n]|]; simpl; try discriminate; reflexivity. Qed.
 
 (** ---- (c) announced size of a leaf ---- *)
 
@@ -198,18 +158,15 @@ Definition w_raw : str := S_ "A: b" ++ crlf ++ crlf ++ S_ "body" ++ crlf.
 Definition w_leaf_crlf : str := S_ "hello" ++ crlf.
 Definition w_b64 : str := concat (repeat (S_ "QUJD") 30).
 
-Lemma refuted_header_text :
-  exists raw, classify_msg raw = Some HeaderBlankLine /\ header_text_ok raw = false.
-Proof. exists w_raw. split; vm_compute; reflexivity. Qed.
+(** regression examples about the behaviour before the repairs (stand-alone
+    definitions, not the current model): the header cut msg[:i+2] lost the
+    blank line; a partial on BODY[] was not applied *)
+Example old_header_cut_lost_the_blank_line :
+  firstn (4 + 2) w_raw ++ skipn (4 + 4) w_raw <> w_raw /\ index w_raw sep4 = Some 4.
+Proof. split; [vm_compute; discriminate | vm_compute; reflexivity]. Qed.
 
-Lemma refuted_partial_ignored :
-  exists raw s o n x, classify_item s (Some (o, n)) = Some PartialIgnored /\
-    fetch_item raw [] s None = Some x /\
-    fetch_item raw [] s (Some (o, n)) <> Some (slice_spec x o n).
-Proof.
-  exists w_raw, SecAll, 0, 3, w_raw. split; [reflexivity|]. split; [reflexivity|].
-  vm_compute. discriminate.
-Qed.
+Example old_whole_item_is_not_the_slice : w_raw <> slice_spec w_raw 0 3.
+Proof. vm_compute. discriminate. Qed.
 
 Lemma refuted_trailing_crlf :
   forall reader_part, (forall w, has_suffix w crlf = true -> reader_part w = strip2 w) ->
